@@ -201,7 +201,9 @@ class IH5Record(IH5Group):
         if not self.__files__:
             return False
         f = self.__files__[-1]
-        return bool(f) and f.mode == "r+"
+        # NOTE: the file mode alone is not enough - HDF5 shares the open flags between all
+        # handles to a file in a process, so a committed container may still report "r+"
+        return bool(f) and f.mode == "r+" and self._ublock(-1).hdf5_hashsum is None
 
     @classmethod
     def _is_valid_record_name(cls, name: str) -> bool:
